@@ -23,6 +23,7 @@ class Fs:
         self.log = []        # (op, path)
         self.clock = 1
         self.fail = set()    # paths whose operations fail
+        self.symbolic_files = {}   # path -> z3 Bool: "a regular file exists here" (read-only probes)
 
     def tick(self):
         self.clock += 1
@@ -231,6 +232,9 @@ def path_exists(I, a, n):
     p = pkey(I, a[0])
     node = fs.nodes.get(p)
     op = meth(n)
+    if p in fs.symbolic_files and node is None:
+        r = False if op == "is_dir" else I.branch_bool(fs.symbolic_files[p])
+        return OK(r) if op == "try_exists" else r
     r = node is not None if op in ("exists", "try_exists") else (node is not None and (node.is_dir == (op == "is_dir")))
     return OK(r) if op == "try_exists" else r
 
@@ -318,3 +322,9 @@ def anyhow_fmt(I, a, n):
     from .models_fmt import write_chars
     write_chars(I, a[1], deref(a[0]).display(I))
     return OK(UNIT)
+
+
+@model(r"^toml::to_string_pretty$|^toml::to_string$")
+def toml_to_string(I, a, n):
+    # stub: the serialised text is opaque (TOML serialisation is outside every claim)
+    return OK(S("# toml\n"))
